@@ -21,7 +21,7 @@ package agessh
 //@   loop 1 decreases len(stanzas) - rangeindex
 //@   ensures#nomatch (forall j in 0..len(stanzas) :: wraps(apply(unwrap, 1, stanzas[j]), age.ErrIncorrectIdentity)) ==> fk == nil && err == age.ErrIncorrectIdentity   [C01 C04 C05 C19]
 //@   ensures#first forall k in 0..len(stanzas) :: (!wraps(apply(unwrap, 1, stanzas[k]), age.ErrIncorrectIdentity) && (forall j in 0..k :: wraps(apply(unwrap, 1, stanzas[j]), age.ErrIncorrectIdentity))) ==> ((apply(unwrap, 1, stanzas[k]) != nil ==> fk == nil && err == apply(unwrap, 1, stanzas[k])) && (apply(unwrap, 1, stanzas[k]) == nil ==> same(fk, apply(unwrap, 0, stanzas[k])) && err == nil))   [C01 C04 C05 C19]
-//@   ensures#nil err != nil ==> fk == nil                                                              [C01 C04]
+//@   ensures#nil err != nil ==> fk == nil                                                              [C01 C03 C04]
 //@   modifies nothing
 
 //@ func aeadEncrypt(key, plaintext) (ct, err)
@@ -57,7 +57,7 @@ package agessh
 //@   ensures#malformed (block.Type == "ssh-rsa" && len(block.Args) != 1) ==> err != nil && !wraps(err, age.ErrIncorrectIdentity)   [C05 C14 C19]
 //@   ensures#foreign block.Type != "ssh-rsa" ==> err == age.ErrIncorrectIdentity                                  [C01 C04 C05]
 //@   ensures#tag (block.Type == "ssh-rsa" && len(block.Args) == 1 && block.Args[0] != fpof(i.sshKey)) ==> err == age.ErrIncorrectIdentity   [C01 C04 C05 C19]
-//@   ensures#nil err != nil ==> fk == nil                                                                         [C01 C04]
+//@   ensures#nil err != nil ==> fk == nil                                                                         [C01 C03 C04]
 //@   ensures#ok err == nil ==> block.Type == "ssh-rsa" && block.Args[0] == fpof(i.sshKey) && bytes(fk) == oaepdec(id(i.k), bytes(block.Body), OAEPLABEL)   [C01 C04 C05]
 //@   ensures#opens (block.Type == "ssh-rsa" && len(block.Args) == 1 && block.Args[0] == fpof(i.sshKey) && oaepok(id(i.k), bytes(block.Body), OAEPLABEL)) ==> err == nil   [C01 C05]
 //@   ensures#wrongkey (block.Type == "ssh-rsa" && len(block.Args) == 1 && block.Args[0] == fpof(i.sshKey) && !oaepok(id(i.k), bytes(block.Body), OAEPLABEL)) ==> err != nil   [C01 C04]
@@ -92,7 +92,7 @@ package agessh
 //@   ensures#malformed (block.Type == "ssh-ed25519" && len(block.Args) != 2) ==> err != nil && !wraps(err, age.ErrIncorrectIdentity)   [C05 C14 C19]
 //@   ensures#foreign block.Type != "ssh-ed25519" ==> err == age.ErrIncorrectIdentity                              [C01 C04 C05]
 //@   ensures#tag (block.Type == "ssh-ed25519" && len(block.Args) == 2 && b64rawok(block.Args[1]) && len(unb64raw(block.Args[1])) == 32 && block.Args[0] != fpof(i.sshKey)) ==> err == age.ErrIncorrectIdentity   [C01 C04 C05 C19]
-//@   ensures#nil err != nil ==> fk == nil                                                                         [C01 C04]
+//@   ensures#nil err != nil ==> fk == nil                                                                         [C01 C03 C04]
 //@   ensures#opens (block.Type == "ssh-ed25519" && len(block.Args) == 2 && b64rawok(block.Args[1]) && len(unb64raw(block.Args[1])) == 32 && block.Args[0] == fpof(i.sshKey) && x25519ok(bytes(i.secretKey), unb64raw(block.Args[1])) && x25519ok(edTweak(i.sshKey), x25519(bytes(i.secretKey), unb64raw(block.Args[1]))) && openok(edKey(x25519(edTweak(i.sshKey), x25519(bytes(i.secretKey), unb64raw(block.Args[1]))), unb64raw(block.Args[1]), bytes(i.ourPublicKey)), zeros(12), bytes(block.Body))) ==> err == nil   [C01 C05]
 //@   ensures#frame i.secretKey == old(i.secretKey) && i.ourPublicKey == old(i.ourPublicKey) && i.sshKey == old(i.sshKey)   [C20]
 //@   modifies nothing
@@ -139,14 +139,14 @@ package agessh
 
 //@ func (*RSAIdentity).Unwrap(i, stanzas) (fk, err)
 //@   requires i.sshKey != nil && (forall j in 0..len(stanzas) :: stanzas[j] != nil)
-//@   ensures#nil err != nil ==> fk == nil                                                                          [C01 C04]
+//@   ensures#nil err != nil ==> fk == nil                                                                          [C01 C03 C04]
 //@   ensures#foreign (forall j in 0..len(stanzas) :: stanzas[j].Type != "ssh-rsa") ==> err == age.ErrIncorrectIdentity   [C01 C04 C05]
 //@   ensures#frame i.k == old(i.k) && i.sshKey == old(i.sshKey)                                                    [C20]
 //@   modifies nothing
 
 //@ func (*Ed25519Identity).Unwrap(i, stanzas) (fk, err)
 //@   requires i.sshKey != nil && len(i.secretKey) == 32 && len(i.ourPublicKey) == 32 && (forall j in 0..len(stanzas) :: stanzas[j] != nil)
-//@   ensures#nil err != nil ==> fk == nil                                                                          [C01 C04]
+//@   ensures#nil err != nil ==> fk == nil                                                                          [C01 C03 C04]
 //@   ensures#foreign (forall j in 0..len(stanzas) :: stanzas[j].Type != "ssh-ed25519") ==> err == age.ErrIncorrectIdentity   [C01 C04 C05]
 //@   ensures#frame i.secretKey == old(i.secretKey) && i.ourPublicKey == old(i.ourPublicKey) && i.sshKey == old(i.sshKey)   [C20]
 //@   modifies nothing
